@@ -370,16 +370,27 @@ func writtenRoots(n ast.Node) []*ast.Ident {
 		if fn, ok := v.Fun.(*ast.Ident); ok && (fn.Name == "delete" || fn.Name == "copy") && len(v.Args) > 0 {
 			add(v.Args[0])
 		}
-		// a method call on (a field of) a variable may have a pointer receiver
-		if se, ok := v.Fun.(*ast.SelectorExpr); ok {
-			if _, isIdent := se.X.(*ast.Ident); !isIdent {
-				add(se.X)
-			} else {
-				add(se.X)
-			}
+		// a method call on (a field of) a variable may have a pointer receiver that
+		// mutates it. Receiver kinds are not known syntactically, so the method name
+		// decides: the mutator vocabulary of the standard library's stateful values
+		// (buffers, hashes, containers, decoders). A value method such as
+		// time.Time.Add on a package-level constant-like variable is a read.
+		if se, ok := v.Fun.(*ast.SelectorExpr); ok && mutatorName(se.Sel.Name) {
+			add(se.X)
 		}
 	}
 	return out
+}
+
+var mutatorPrefixes = []string{"Write", "Reset", "Truncate", "Grow", "Read", "Set", "Put", "Push", "Pop", "Insert", "Remove", "Delete", "Store", "Swap", "Append", "Clear", "Init", "Unmarshal", "Decode", "Scan", "Seek", "Next", "Fill", "Flush", "Close", "Update", "Inc", "Dec"}
+
+func mutatorName(n string) bool {
+	for _, p := range mutatorPrefixes {
+		if strings.HasPrefix(n, p) {
+			return true
+		}
+	}
+	return false
 }
 
 // mentions lists the written globals a statement mentions (without
